@@ -190,10 +190,10 @@ func (t *QuicTransport) getConn(ctx context.Context) (_ quic.Connection, newConn
 		return nil, false, ErrClosedTransport
 	}
 
-	if t.c != nil {
-		if !ctxIsDone(t.c.Context()) {
+	if c := t.c; c != nil {
+		if !ctxIsDone(c.Context()) {
 			t.m.Unlock()
-			return t.c, false, nil
+			return c, false, nil
 		}
 		// dead conn
 		t.c = nil
